@@ -60,9 +60,24 @@ QXmppIncomingClientPrivate::QXmppIncomingClientPrivate(QXmppIncomingClient *qq)
 
 void QXmppIncomingClientPrivate::checkCredentials(const QByteArray &response)
 {
+    // The user name becomes the local part of the connection's JID.  It must not be empty and must not contain the
+    // JID separators: a name like "victim@example.org/x" would otherwise turn into victim@example.org/<resource>.
+    const QString username = saslServer->username();
+    if (username.isEmpty() || username.contains(u'/') || username.contains(u'@')) {
+        q->warning(u"Authentication refused for malformed user name '%1' from %2"_s.arg(username, origin()));
+        if (saslVersion == Sasl) {
+            q->sendData(serializeXml(Sasl::Failure { Sasl::ErrorCondition::NotAuthorized, QString() }));
+        } else {
+            sasl2AuthRequest.reset();
+            q->sendData(serializeXml(Sasl2::Failure { Sasl::ErrorCondition::NotAuthorized, QString() }));
+        }
+        q->disconnectFromHost();
+        return;
+    }
+
     QXmppPasswordRequest request;
     request.setDomain(domain);
-    request.setUsername(saslServer->username());
+    request.setUsername(username);
 
     if (saslServer->mechanism() == u"PLAIN") {
         request.setPassword(saslServer->password());
